@@ -131,7 +131,7 @@ func c16ShowBins(l []uint32) string {
 	return fmt.Sprintf("#%d:%d:%d:%d", len(l), sum, l[0], l[len(l)-1])
 }
 
-func b2i(b bool) int {
+func c16B2i(b bool) int {
 	if b {
 		return 1
 	}
@@ -213,7 +213,7 @@ func c16Record(c *ctx, in c16Input, d *Driver, impl *[]string) {
 		r.hist("record.nonstd-op")
 	}
 	if d != nil {
-		u := b2i(in.Unmapped)
+		u := c16B2i(in.Unmapped)
 		d.add("c16.end %d %d %s", u, in.Pos, in.Cigar)
 		*impl = append(*impl, endS)
 		d.add("c16.len %d %d %s", u, in.Pos, in.Cigar)
@@ -222,7 +222,7 @@ func c16Record(c *ctx, in c16Input, d *Driver, impl *[]string) {
 		*impl = append(*impl, lengthsS)
 		d.add("c16.isvalid %d %s", in.SeqLen, in.Cigar)
 		*impl = append(*impl, validS)
-		d.add("c16.bin %d %d %d %s", u, b2i(in.MateUnm), in.Pos, in.Cigar)
+		d.add("c16.bin %d %d %d %s", u, c16B2i(in.MateUnm), in.Pos, in.Cigar)
 		*impl = append(*impl, binS)
 	}
 }
